@@ -258,35 +258,7 @@ def run(ctx):
     res.count("dispatch_variants_checked", ndisp, floor=35)
 
     # ---- R4 real literal
-    nreal = 0
-    for w in writers:
-        sp = w.impl_self_path()
-        adt = db.adts.get(sp)
-        if not adt or adt["kind"] != "Enum":
-            continue
-        fv = [v["n"] for v in adt["variants"] if len(v["fields"]) == 1 and db.ty_s(v["fields"][0]["t"]) == "f64"]
-        iv = [v["n"] for v in adt["variants"] if len(v["fields"]) == 1 and db.ty_s(v["fields"][0]["t"]) in ("i64", "u64")]
-        if not (fv and iv):
-            continue
-        for bb, t, c in w.calls():
-            if not c:
-                continue
-            p = callee_path(c)
-            m = re.match(r"^core::fmt::rt::Argument::<'_>::new_(\w+)$", p)
-            if not m or not c.get("args"):
-                continue
-            ty = db.types[c["args"][0]]
-            while ty["k"] == "ref":
-                ty = db.types[ty["t"]]
-            if ty["s"] != "f64":
-                continue
-            nreal += 1
-            key = "K6|real-literal-format|%s" % sp
-            ok = m.group(1) != "display"
-            res.site(key, True, {"writer": sp, "format_trait": m.group(1), "verdict": "ok" if ok else "VIOLATION"})
-            if not ok:
-                res.find(key, w.loc(t["sp"]), "%s prints its f64 literal through <f64 as Display>, which writes 1.0 as `1` (re-lexed as an integer literal: a different instruction) and 1e300 as 301 digits (rejected)" % sp.replace("quil_rs::", ""), "`MOVE ro 1.0` prints `MOVE ro[0] 1`, which re-parses to a LiteralInteger operand")
-    res.count("real_literal_format_sites", nreal, floor=2)
+    real_literal_rule(db, res, writers)
     # K8 separator agreement (forward direction): a writer that emits a comma between elements needs a parser for the same
     #    type that accepts the COMMA token; whitespace-separated lists (`many0(..)`) must not be printed with commas
     from qv.synq import walk as _walk
@@ -372,3 +344,37 @@ def run(ctx):
     )
     res.assumptions = ["strum derives Display/EnumString exactly from the serialize/to_string/serialize_all attributes", "derived PartialEq compares every field"]
     return res
+
+
+def real_literal_rule(db, res, writers):
+    """K6: an operand enum with both an f64 and an integer literal variant must not print the f64 through Display
+    (`1.0` -> `1` re-lexes as an integer literal, `1e300` as 301 digits).  Shared by C02 and C04."""
+    nreal = 0
+    for w in writers:
+        sp = w.impl_self_path()
+        adt = db.adts.get(sp)
+        if not adt or adt["kind"] != "Enum":
+            continue
+        fv = [v["n"] for v in adt["variants"] if len(v["fields"]) == 1 and db.ty_s(v["fields"][0]["t"]) == "f64"]
+        iv = [v["n"] for v in adt["variants"] if len(v["fields"]) == 1 and db.ty_s(v["fields"][0]["t"]) in ("i64", "u64")]
+        if not (fv and iv):
+            continue
+        for bb, t, c in w.calls():
+            if not c:
+                continue
+            p = callee_path(c)
+            m = re.match(r"^core::fmt::rt::Argument::<'_>::new_(\w+)$", p)
+            if not m or not c.get("args"):
+                continue
+            ty = db.types[c["args"][0]]
+            while ty["k"] == "ref":
+                ty = db.types[ty["t"]]
+            if ty["s"] != "f64":
+                continue
+            nreal += 1
+            key = "K6|real-literal-format|%s" % sp
+            ok = m.group(1) != "display"
+            res.site(key, True, {"writer": sp, "format_trait": m.group(1), "verdict": "ok" if ok else "VIOLATION"})
+            if not ok:
+                res.find(key, w.loc(t["sp"]), "%s prints its f64 literal through <f64 as Display>, which writes 1.0 as `1` (re-lexed as an integer literal: a different instruction) and 1e300 as 301 digits (rejected)" % sp.replace("quil_rs::", ""), "`MOVE ro 1.0` prints `MOVE ro[0] 1`, which re-parses to a LiteralInteger operand")
+    res.count("real_literal_format_sites", nreal, floor=2)
